@@ -1,6 +1,7 @@
 package main
 
 import (
+	"sort"
 	"fmt"
 	"math/big"
 	"os"
@@ -435,26 +436,92 @@ func tryWitness(ts []*Term) *witness {
 				w.bools[t.args[0].id] = false
 			}
 		}
-		good := true
-		for _, t := range ts {
-			v, ok := w.evalBool(t, salt)
-			if !ok {
-				if os.Getenv("SYMGO_WITDBG") != "" {
-					fmt.Fprintf(os.Stderr, "witness: outside fragment: %s\n", t.def())
+		pinned := map[int]bool{}
+		for repairs := 0; ; repairs++ {
+			var failed *Term
+			for _, t := range ts {
+				v, ok := w.evalBool(t, salt)
+				if !ok {
+					if os.Getenv("SYMGO_WITDBG") != "" {
+						fmt.Fprintf(os.Stderr, "witness: outside fragment: %s\n", t.def())
+					}
+					return nil // outside the fragment: ask the solver
 				}
-				return nil // outside the fragment: ask the solver
+				if !v {
+					if os.Getenv("SYMGO_WITDBG") != "" {
+						fmt.Fprintf(os.Stderr, "witness: false at generic point: %s\n", t.def())
+					}
+					failed = t
+					break
+				}
 			}
-			if !v {
-				if os.Getenv("SYMGO_WITDBG") != "" {
-					fmt.Fprintf(os.Stderr, "witness: false at generic point: %s\n", t.def())
-				}
-				good = false
+			if failed == nil {
+				return w
+			}
+			// an asserted equation between Real terms that fails at the generic point: move ONE variable in which the
+			// equation is affine (all others keep their values) to its root, then evaluate everything again. The result is
+			// still an explicit point at which every assertion is checked exactly, so only `sat` is ever concluded.
+			if repairs >= 6 || !w.repair(failed, salt, pinned) {
 				break
 			}
 		}
-		if good {
-			return w
-		}
 	}
 	return nil
+}
+
+func realVars(t *Term, seen map[int]bool, out *[]*Term) {
+	if seen[t.id] {
+		return
+	}
+	seen[t.id] = true
+	if t.op == "var" && t.w == -1 {
+		*out = append(*out, t)
+		return
+	}
+	for _, a := range t.args {
+		realVars(a, seen, out)
+	}
+}
+
+func (w *witness) repair(eq *Term, salt int, pinned map[int]bool) bool {
+	if eq.op != "=" || eq.args[0].w != -1 {
+		return false
+	}
+	var vars []*Term
+	realVars(eq, map[int]bool{}, &vars)
+	sort.Slice(vars, func(i, j int) bool { return vars[i].id > vars[j].id }) // youngest first: fresh hash outputs, fresh randomness
+	diffAt := func(v *Term, x *big.Rat) (*big.Rat, bool) {
+		w.reals[v.id] = x
+		w.memo = map[int]*big.Rat{}
+		a, ok1 := w.evalRat(eq.args[0], salt)
+		b, ok2 := w.evalRat(eq.args[1], salt)
+		if !ok1 || !ok2 {
+			return nil, false
+		}
+		return new(big.Rat).Sub(a, b), true
+	}
+	for _, v := range vars {
+		if pinned[v.id] {
+			continue
+		}
+		old := w.reals[v.id]
+		x0, x1, x2 := big.NewRat(3, 1), big.NewRat(11, 1), big.NewRat(29, 1)
+		f0, ok0 := diffAt(v, x0)
+		f1, ok1 := diffAt(v, x1)
+		f2, ok2 := diffAt(v, x2)
+		if ok0 && ok1 && ok2 {
+			slope := new(big.Rat).Quo(new(big.Rat).Sub(f1, f0), new(big.Rat).Sub(x1, x0))
+			slope2 := new(big.Rat).Quo(new(big.Rat).Sub(f2, f1), new(big.Rat).Sub(x2, x1))
+			if slope.Sign() != 0 && slope.Cmp(slope2) == 0 {
+				root := new(big.Rat).Sub(x0, new(big.Rat).Quo(f0, slope))
+				if d, ok := diffAt(v, root); ok && d.Sign() == 0 {
+					pinned[v.id] = true
+					return true
+				}
+			}
+		}
+		w.reals[v.id] = old
+		w.memo = map[int]*big.Rat{}
+	}
+	return false
 }
